@@ -17,7 +17,7 @@ The over-approximation is deliberate (a Vec<HashSet<_>> field that is only itera
 site has to be classified by hand in Interner/SiteClasses.v, and C15_sites_classified breaks when a site is new or changed.
 Raises when the source no longer has the expected shape.
 """
-import os, re
+import hashlib, os, re
 
 TARGET = "HashIterSites.v"
 SRC = "crates/lib/mimium-lang/src"
@@ -26,6 +26,7 @@ ANCHORS = ["compiler/typing.rs", "compiler/wasmgen.rs", "compiler/bytecodegen.rs
 EXPECT_ALIASES = {"ConstructorEnv", "TypeDeclarationMap", "TypeAliasMap"}
 ITER_METHODS = ["iter", "iter_mut", "values", "values_mut", "keys", "into_iter", "into_keys", "into_values", "drain",
                 "retain", "extract_if"]
+SMALL_FN_LINES = 120
 PASS_METHODS = ["as_ref", "as_mut", "unwrap", "clone", "cloned", "borrow", "borrow_mut", "lock", "read", "write", "expect",
                 "as_deref", "unwrap_or_default", "to_owned"]
 
@@ -318,6 +319,27 @@ def scan(repo):
                 init = text[m.end():k]
                 if HT.search(init) or (hfuns and re.search(r"\b(%s)\s*\(" % "|".join(map(re.escape, sorted(hfuns))), init)):
                     names.add(m.group(1))
+            # accumulator of a fold that starts from a hash container: `.fold(HashMap::new(), |mut acc, x| ..)`
+            for m in re.finditer(r"\.\s*fold\s*\(", text):
+                k = m.end()
+                comma = None
+                depth = 0
+                while k < len(text):
+                    ch = text[k]
+                    if ch in "([{<":
+                        depth += 1
+                    elif ch in ")]}>" and not (ch == ">" and text[k - 1] in "-="):
+                        depth -= 1
+                        if depth < 0:
+                            break
+                    elif ch == "," and depth == 0:
+                        comma = k
+                        break
+                    k += 1
+                if comma is not None and HT.search(text[m.end():comma]):
+                    cm = re.match(r"\s*(?:move\s+)?\|\s*(?:mut\s+)?(\w+)", text[comma + 1:])
+                    if cm:
+                        names.add(cm.group(1))
             local[fn] = names
 
         file_fields = {nm for nm, prefs in fnames.items() if any(visible(p, f) for p in prefs)}
@@ -375,6 +397,10 @@ def scan(repo):
         for m in re.finditer(r"\b(extend|from_iter)\s*\(\s*(?:&\s*(?:mut\s+)?)?((?:\w+\s*\.\s*)*)(\w+)\b(?!\s*\()", c):
             if m.group(3) in names_at(m.start()):
                 found.append((m.start(), m.end(), m.group(1)))
+        # (d) HASHNAME.extend(..): the argument is consumed in its own iteration order and inserted into a hash container
+        for m in re.finditer(r"(?<![\w])(\w+)\s*\.\s*extend\s*\(", c):
+            if m.group(1) in names_at(m.start()) and not any(a <= m.start() < b for a, b, _ in found):
+                found.append((m.start(), m.end(), "extend-into"))
         # dedupe: an iteration method inside a listed for-header is the same site
         fors = [(a, b) for a, b, k in found if k == "for"]
         seen = {}
@@ -393,7 +419,28 @@ def scan(repo):
             seen[key] = seen.get(key, 0) + 1
             if seen[key] > 1:
                 txt = txt + "  #%d" % seen[key]
-            sites.append((f, fname, txt, l0 + 1))
+            # fingerprint of the code the classification argues about: the whole enclosing function when it is small,
+            # else the loop (header + body) / the statement containing the site
+            if fn and c.count("\n", fn[1], fn[3]) <= SMALL_FN_LINES:
+                extent = c[fn[1]:fn[3] + 1]
+            elif kind == "for":
+                extent = c[a:match_close(c, b - 1, "{", "}") + 1]
+            else:
+                k, depth = a, 0
+                while k < len(c):
+                    ch = c[k]
+                    if ch in "([{":
+                        depth += 1
+                    elif ch in ")]}":
+                        depth -= 1
+                        if depth < 0:
+                            break
+                    elif ch == ";" and depth == 0:
+                        break
+                    k += 1
+                extent = c[line_starts[l0]:k + 1]
+            fp = hashlib.sha256(collapse(extent).encode()).hexdigest()[:10]
+            sites.append((f, fname, txt, l0 + 1, fp))
     need(nfun > 300, "found only %d functions; the scanner no longer understands the source" % nfun)
     need(len(sites) >= 10, "found only %d iteration sites" % len(sites))
     return files, aliases, sorted(gnames | set(fnames)), sorted(hfuns), sites
@@ -410,9 +457,10 @@ def generate(repo):
          "(* functions whose return type mentions a hash container *)",
          "Definition hash_returning_functions : list string := [%s]." % "; ".join(coq_str(a) for a in hfuns), "",
          "Definition scanned_files : list string := [%s]." % "; ".join(coq_str(a) for a in files), "",
-         "(* (file, enclosing function, normalised source text of the iteration site) *)",
-         "Definition hash_iter_sites : list (string * string * string) := ["]
-    rows = ["  (%s, %s, %s)  (* line %d *)" % (coq_str(f), coq_str(fn), coq_str(t), ln) for f, fn, t, ln in sites]
+         "(* (file, enclosing function, normalised source text of the iteration site, fingerprint of the code around it:",
+         "   sha256 prefix of the whitespace-normalised enclosing function if it has <= %d lines, else of the loop / statement) *)" % SMALL_FN_LINES,
+         "Definition hash_iter_sites : list (string * string * string * string) := ["]
+    rows = ["  (%s, %s, %s, %s)  (* line %d *)" % (coq_str(f), coq_str(fn), coq_str(t), coq_str(fp), ln) for f, fn, t, ln, fp in sites]
     body = ";\n".join(rows)
     # the trailing comment of the last row must stay before the bracket
     L.append(body)
@@ -423,11 +471,11 @@ def generate(repo):
 
 if __name__ == "__main__":
     import sys
-    repo = sys.argv[1] if len(sys.argv) > 1 else "/repo"
+    repo = sys.argv[1] if len(sys.argv) > 1 else os.environ.get("VERIF_REPO", "/repo")
     files, aliases, gnames, hfuns, sites = scan(repo)
     print("aliases", aliases)
     print("fields", gnames)
     print("hfuns", hfuns)
     for s in sites:
-        print("%s:%d  [%s]  %s" % (s[0], s[3], s[1], s[2]))
+        print("%s:%d  [%s]  %s  <%s>" % (s[0], s[3], s[1], s[2], s[4]))
     print(len(sites), "sites")
